@@ -535,6 +535,30 @@ def action_corpus(pid, tier, seed, workdir):
         extra.append(N("not_at", [N(o, [N("seq", [S(0), N("raise", [S(1)])])])]))
     shapes += in_contexts(extra, contexts=("bare", "seq"))
     per = 10 if q else 25
+    if pid == "C05":
+        # must_if< errs, observer >::control: custom messages per rule, raise on local failure by default for rules with a
+        # message, or governed by an explicit errs::raise_on_failure override
+        gm = gen_grammars(40 if q else 400, seed * 1000 + 43, CORE_OPS + ["must", "if_must", "opt_must", "list_must", "try_catch_return_false", "list", "pad"],
+                          3 if q else 4, rnd, [1, 2], errmsg=True)
+        for g in gm:
+            L = gen.Lowered(g)
+            cts = sorted(set(m.ctype for m in L.nodes if m.ctype and not m.ctype.startswith("tao::pegtl::raise")))
+            msg = {}
+            rof = {}
+            for ct in cts:
+                if rnd.random() < 0.25:
+                    msg[ct] = "expected #%d" % (len(msg) + 1)
+            override = rnd.random() < 0.5
+            if override:
+                for ct in cts:
+                    x = rnd.random()
+                    if ct in msg:
+                        rof[ct] = x < 0.4   # a message that is only used by must<>, not on every local failure
+                    else:
+                        rof[ct] = x < 0.08  # raise on failure without an own message
+            g.mustif = {"msg": msg, "rof": rof, "override": override}
+        for t in write_tus(workdir, "a5", gm, per, 9, C09_INCLUDES):
+            runs.append(Run(t, args=["--prop", pid]))
     if pid == "C08":
         for tag, gs_, n_ in (("h1", g1, per), ("h2", g2, per), ("h3", g3, per), ("h4", shapes, 16)):
             for t in write_tus(workdir, tag, gs_, n_, 4, C09_INCLUDES):
@@ -554,7 +578,8 @@ def action_corpus(pid, tier, seed, workdir):
 def plan_actions(pid):
     def plan(tier, seed, workdir, case):
         if case is not None:
-            return replay_corpus_plan(pid, workdir, case, cfgset=4 if pid == "C08" else 3, extra_includes=C09_INCLUDES)
+            cfgset = 4 if pid == "C08" else 9 if (pid == "C05" and case.get("grammar", {}).get("mustif")) else 3
+            return replay_corpus_plan(pid, workdir, case, cfgset=cfgset, extra_includes=C09_INCLUDES)
         return action_corpus(pid, tier, seed, workdir)
     return plan
 
